@@ -201,7 +201,10 @@ class HeapMixin:
     # ---------------------------------------------------------------- typing facts
     def typed(self, v, st=None):
         """Heap-typing assumption for a value just read from the heap (trusted: sidecar types)."""
-        if isinstance(v, VRef) and v.typ != ty.ANY:
+        if isinstance(v, VRef) and isinstance(v.typ, ty.TRef) and v.typ.cls in ('_MetaAgent', 'type'):
+            # class objects live at negative references (= class ids)
+            self.fact(v.term < 0)
+        elif isinstance(v, VRef) and v.typ != ty.ANY:
             alloc = self.arr('alloc', st)
             if getattr(v.typ, 'nullable', False):
                 self.fact(z3.And(v.term >= 0, v.term < alloc))
@@ -281,7 +284,7 @@ class HeapMixin:
 
     def list_get_typed(self, ref, idx):
         v = self.list_get(ref, idx)
-        if not self.spec_mode:
+        if True:
             n = self.llen(ref)
             save = self.qguards
             self.qguards = list(save) + [z3.And(idx >= 0, idx < n)]
@@ -402,7 +405,7 @@ class HeapMixin:
         has, vals, *_ = self.d_parts(ref)
         k = self.key_term(ref, kv)
         v = self.from_terms([z3.Select(a, k) for a in vals], ref.typ.v, ref.st)
-        if not self.spec_mode:
+        if True:
             save = self.qguards
             self.qguards = list(save) + [z3.Select(has, k)]
             try:
